@@ -54,6 +54,9 @@ type NodeOpts struct {
 	Name  string
 	ID    *m.Address
 	Store config.Store // Router.Address is filled in from ID
+	// Config, if set, is used as is (e.g. loaded from a configuration file by the
+	// real loader) instead of parsing Store.
+	Config *config.Config
 	// Storage, if set, is used as the node's persistent storage (a router that
 	// restarts with the state an earlier incarnation stored).
 	Storage *storage.MemStorage
@@ -71,7 +74,10 @@ func NewNode(o NodeOpts) (*Node, error) {
 	if o.NoTun {
 		st.System.DisableTun = true
 	}
-	cfg, err := configParse(st)
+	cfg, err := o.Config, error(nil)
+	if cfg == nil {
+		cfg, err = configParse(st)
+	}
 	if err != nil {
 		return nil, err
 	}
